@@ -1,32 +1,283 @@
+"""C01 - safe loading is confined to plain data (DESIGN.md section 4, C01)."""
+import datetime
+import sys
+
 import yaml
 from yaml.nodes import ScalarNode, SequenceNode, MappingNode
-from symex.hlib import Job, reach, fail, exc_sig, not_a_finding, pick
+from symex.hlib import Job, reach, fail, exc_sig, not_a_finding, pick, CONCRETE
+from spec import yaml11_types as spec
+from symex import standins, pymodels
 
 P = 'C01'
-CORE = frozenset('tag:yaml.org,2002:' + x for x in
-                 'null bool int float binary timestamp omap pairs set str seq map'.split())
+T = 'tag:yaml.org,2002:'
+CORE_LIST = [T + x for x in 'null bool int float binary timestamp omap pairs set str seq map'.split()]
+CORE = frozenset(CORE_LIST)
+SCALAR_KINDS = ['null', 'bool', 'int', 'float', 'binary', 'timestamp']
+SAFE_TYPES = (type(None), bool, int, float, str, bytes, datetime.date, datetime.datetime, list, dict, set)
 
-def dispatch(tag: str, kind: int) -> str:
-    loader = yaml.SafeLoader('')
+ENCODED = ['BaseConstructor.construct_document', 'BaseConstructor.construct_object',
+           'BaseConstructor.construct_scalar/sequence/mapping/pairs', 'SafeConstructor.flatten_mapping',
+           'SafeConstructor.construct_yaml_* (12)', 'SafeConstructor.construct_undefined',
+           'BaseConstructor.add_constructor/add_multi_constructor (through the class tables they built at import)',
+           'yaml.load / safe_load / safe_load_all', 'loader classes SafeLoader, BaseLoader, CSafeLoader, CBaseLoader (Python halves)']
+BOUNDS = {
+    'quick': 'tag: any str with len<=48 over all code points; node kind in {scalar,seq,map}; 4 loader classes; '
+             'core-tag scalar values len<=2; 12 placement contexts',
+    'thorough': 'same with core-tag scalar values len<=3 and tags len<=64',
+}
+OUTSIDE = ('text -> node for the C loaders (libyaml, not symbolically executable here); tags longer than the bound; '
+           'documents deeper than the placement skeletons')
+ASSUMPTIONS = ['M1: error-message formatting in yaml/*.py replaced by a placeholder (message text is not part of C01)',
+               'nodes are built directly (the parser is skipped); C loader instances are created on an empty concrete stream']
+
+
+def in_universe(obj, depth=0, in_pairs=False):
+    if depth > 12:
+        return True
+    t = type(obj)
+    if t is tuple:
+        return in_pairs and len(obj) == 2 and in_universe(obj[0], depth + 1) and in_universe(obj[1], depth + 1)
+    if t not in SAFE_TYPES:
+        return False
+    if t is list:
+        return all(in_universe(x, depth + 1, True) for x in obj)
+    if t is dict:
+        return all(in_universe(k, depth + 1) and in_universe(v, depth + 1) for k, v in obj.items())
+    if t is set:
+        return all(in_universe(k, depth + 1) for k in obj)
+    return True
+
+
+LOADERS = [yaml.SafeLoader, yaml.BaseLoader, yaml.CSafeLoader, yaml.CBaseLoader]
+
+
+def in_core(tag):
+    # explicit comparison chain: `tag in frozenset` would hash (= realise) a symbolic tag
+    for c in CORE_LIST:
+        if tag == c:
+            return True
+    return False
+
+
+def _tk(tag):
+    return tag[len(T):] if in_core(tag) else '?'
+
+
+def _mk(tag, kind):
     if kind == 0:
-        node = ScalarNode(tag, '')
+        return ScalarNode(tag, '')
     elif kind == 1:
-        node = SequenceNode(tag, [])
-    else:
-        node = MappingNode(tag, [])
+        return SequenceNode(tag, [])
+    return MappingNode(tag, [])
+
+
+def dispatch(tag: str, kind: int, lc: int) -> str:
+    """Every tag x node kind x the four safe/base classes: rejected unless core."""
+    cls = pick(lc, LOADERS)
+    loader = cls('')
+    node = _mk(tag, kind)
+    mods = len(sys.modules)
     try:
         obj = loader.construct_document(node)
+    except yaml.constructor.ConstructorError:
+        reach()
+        return 'ok'
+    except Exception as e:
+        not_a_finding(e)
+        return fail(P, exc_sig(e), kind=_tk(tag), nk=kind, lc=lc, v='')
+    finally:
+        loader.dispose() if hasattr(loader, 'dispose') else None
+    if len(sys.modules) != mods:
+        return 'IMPORTED'
+    if lc == 1 or lc == 3:
+        # base loaders: everything is str / list / dict
+        return 'ok' if type(obj) in (str, list, dict) else 'BASE-TYPE ' + type(obj).__name__
+    if not in_core(tag):
+        return 'LEAK non-core tag constructed: ' + type(obj).__name__
+    reach()
+    if not in_universe(obj):
+        return 'TYPE ' + type(obj).__name__
+    return 'ok'
+
+
+def core_value(t: int, v: str) -> str:
+    """Core scalar constructors over all short values: result in the universe or a YAML error."""
+    kind = pick(t, SCALAR_KINDS)
+    tag = T + kind
+    loader = yaml.SafeLoader('')
+    node = ScalarNode(tag, v)
+    try:
+        with standins.swap(yaml.constructor, 'base64', standins.B64):
+            obj = loader.construct_document(node)
     except yaml.YAMLError:
         reach()
         return 'ok'
     except Exception as e:
         not_a_finding(e)
-        if tag in CORE:
-            return 'ok'
-        return fail(P, exc_sig(e), tag=tag, kind=kind)
-    if tag not in CORE:
-        return 'LEAK'
+        reach()
+        return fail(P, exc_sig(e), t=t, v=v, kind=kind)
+    reach()
+    if not in_universe(obj):
+        return 'TYPE ' + type(obj).__name__
     return 'ok'
 
+
+def _place(ctx, x):
+    """Put node x into one of the placement contexts; returns the document root."""
+    s = lambda v: ScalarNode(T + 'str', v)
+    m = lambda pairs, tag=T + 'map': MappingNode(tag, pairs)
+    q = lambda items, tag=T + 'seq': SequenceNode(tag, items)
+    mk = ScalarNode(T + 'merge', '<<')
+    if ctx == 0:
+        return q([x])
+    if ctx == 1:
+        return m([(x, s('v'))])
+    if ctx == 2:
+        return m([(s('k'), x)])
+    if ctx == 3:
+        return m([(mk, x)])
+    if ctx == 4:
+        return m([(mk, q([m([]), x]))])
+    if ctx == 5:
+        return m([(x, ScalarNode(T + 'null', ''))], T + 'set')
+    if ctx == 6:
+        return q([m([(s('k'), x)])], T + 'omap')
+    if ctx == 7:
+        return q([m([(x, s('v'))])], T + 'pairs')
+    if ctx == 8:
+        return q([x, x])            # anchored + alias: the same node twice
+    if ctx == 9:
+        return m([(mk, m([(s('k'), x)]))])   # inside a merged mapping
+    if ctx == 10:
+        return q([q([m([(s('a'), q([x]))])])])
+    return m([(s('k'), x), (s('k2'), x)])
+
+
+def context(tag: str, kind: int, ctx: int) -> str:
+    loader = yaml.SafeLoader('')
+    x = _mk(tag, kind)
+    root = _place(ctx, x)
+    try:
+        obj = loader.construct_document(root)
+    except yaml.constructor.ConstructorError:
+        reach()
+        return 'ok'
+    except Exception as e:
+        not_a_finding(e)
+        return fail(P, exc_sig(e), kind=_tk(tag), nk=kind, ctx=ctx, v='')
+    if tag == T + 'value' and (ctx == 1 or ctx == 5) and kind == 0:
+        # the YAML 1.1 '=' (value) key: flatten_mapping turns such a *key* into a plain str
+        # key; the tag belongs to the YAML 1.1 repository and the result is plain data.
+        return 'ok' if in_universe(obj) else 'TYPE'
+    if not in_core(tag):
+        if ctx == 3 or ctx == 4:
+            return fail(P, 'LEAK-MERGE-SOURCE', nk=kind, ctx=ctx)
+        return 'LEAK in context %d' % ctx
+    if not in_universe(obj):
+        return 'TYPE'
+    return 'ok'
+
+
+class _StubbedSafe:
+    """safe_load / safe_load_all / load(SafeLoader) with the composer's result replaced by
+    an arbitrary node ("the parser returns any node")."""
+    def __init__(self, node):
+        self.node = node
+        self.hit = 0
+
+    def __enter__(self):
+        self.saved = (yaml.SafeLoader.get_single_node, yaml.SafeLoader.check_node, yaml.SafeLoader.get_node)
+        stub = self
+        state = {'n': 0}
+
+        def get_single_node(loader):
+            stub.hit += 1
+            return stub.node
+
+        def check_node(loader):
+            return state['n'] == 0
+
+        def get_node(loader):
+            state['n'] += 1
+            stub.hit += 1
+            return stub.node
+        yaml.SafeLoader.get_single_node = get_single_node
+        yaml.SafeLoader.check_node = check_node
+        yaml.SafeLoader.get_node = get_node
+        return self
+
+    def __exit__(self, *a):
+        for name in ('get_single_node', 'check_node', 'get_node'):
+            delattr(yaml.SafeLoader, name)
+        return False
+
+
+def api(tag: str, kind: int, which: int) -> str:
+    x = _mk(tag, kind)
+    with _StubbedSafe(x) as st:
+        try:
+            if which == 0:
+                obj = yaml.safe_load('')
+            elif which == 1:
+                obj = list(yaml.safe_load_all(''))
+            else:
+                obj = yaml.load('', Loader=yaml.SafeLoader)
+        except yaml.constructor.ConstructorError:
+            if st.hit:
+                reach()
+            return 'ok' if st.hit else 'STUB-NOT-HIT (entry point is not bound to SafeLoader)'
+        except Exception as e:
+            not_a_finding(e)
+            return fail(P, exc_sig(e), kind=_tk(tag), nk=kind, v='')
+        if not st.hit:
+            return 'STUB-NOT-HIT (entry point is not bound to SafeLoader)'
+    if not in_core(tag):
+        return 'LEAK through API %d' % which
+    if not in_universe(obj):
+        return 'TYPE'
+    return 'ok'
+
+
+def tables() -> str:
+    """Concrete (no symbolic input): the effective tables of the six classes are the closed
+    set, compared by identity with SafeConstructor's / BaseConstructor's own functions."""
+    SC = yaml.constructor.SafeConstructor
+    for cls in (yaml.SafeLoader, yaml.CSafeLoader):
+        tab = cls.yaml_constructors
+        if set(k for k in tab if k is not None) != CORE:
+            return 'TABLE keys of %s: %r' % (cls.__name__, sorted(set(map(str, tab)) ^ set(map(str, CORE)) - {'None'}))
+        if tab.get(None) is not SC.construct_undefined:
+            return 'TABLE None fallback of %s' % cls.__name__
+        for k, f in tab.items():
+            if getattr(SC, f.__name__, None) is not f:
+                return 'TABLE foreign function %s for %s' % (f.__qualname__, k)
+        if cls.yaml_multi_constructors:
+            return 'TABLE multi constructors on %s' % cls.__name__
+    for cls in (yaml.BaseLoader, yaml.CBaseLoader):
+        if cls.yaml_constructors or cls.yaml_multi_constructors:
+            return 'TABLE base loader has constructors'
+    reach()
+    return 'ok'
+
+
+def selftests():
+    return [pymodels.selftest_int_float(), pymodels.selftest_b64(), pymodels.selftest_codecs(), pymodels.selftest_lower()]
+
+
 def jobs(tier):
-    return [Job('dispatch', dispatch, pre=[lambda tag, kind: len(tag) <= 48 and 0 <= kind <= 2], budget=120)]
+    L = 48 if tier == 'quick' else 64
+    V = 2 if tier == 'quick' else 3
+    js = [
+        Job('dispatch', dispatch, [lambda tag, kind, lc: len(tag) <= L and 0 <= kind <= 2 and 0 <= lc <= 3],
+            budget=120, bounds='len(tag)<=%d, 3 kinds, 4 classes' % L),
+        Job('api', api, [lambda tag, kind, which: len(tag) <= L and 0 <= kind <= 2 and 0 <= which <= 2],
+            budget=120, bounds='len(tag)<=%d, 3 kinds, safe_load/safe_load_all/load(SafeLoader)' % L),
+        Job('tables', tables, [], budget=30, bounds='concrete table identity check'),
+    ]
+    for c in range(12):
+        js.append(Job('context/%d' % c, context, [lambda tag, kind, ctx, _c=c: ctx == _c and len(tag) <= L and 0 <= kind <= 2],
+                      budget=100, bounds='placement %d, len(tag)<=%d, 3 kinds' % (c, L)))
+    for t, k in enumerate(SCALAR_KINDS):
+        js.append(Job('core_value/' + k, core_value, [lambda t, v, _t=t: t == _t and len(v) <= V],
+                      budget=150 if tier == 'quick' else 900, bounds='tag !!%s, len(value)<=%d, all code points' % (k, V)))
+    return js
